@@ -172,6 +172,28 @@ func (o poolOp) String() string {
 	return fmt.Sprintf("h%d.Return(foreign)", o.holder)
 }
 
+// writerSpy is a destination with the optional methods buffered writers have; it records calls.
+type writerSpy struct {
+	calls int
+	first string
+}
+
+func (w *writerSpy) note(n string) {
+	if w.calls == 0 {
+		w.first = n
+	}
+	w.calls++
+}
+func (w *writerSpy) Write(p []byte) (int, error) { w.note("Write"); return len(p), nil }
+func (w *writerSpy) Flush() error                { w.note("Flush"); return nil }
+func (w *writerSpy) Close() error                { w.note("Close"); return nil }
+func (w *writerSpy) Sync() error                 { w.note("Sync"); return nil }
+func (w *writerSpy) WriteByte(byte) error        { w.note("WriteByte"); return nil }
+func (w *writerSpy) WriteString(s string) (int, error) {
+	w.note("WriteString")
+	return len(s), nil
+}
+
 type poolState struct {
 	pool   hessian.Pool
 	w      *ownership
@@ -229,10 +251,23 @@ func (s *poolState) apply(op poolOp) string {
 		s.heldBy[op.holder] = append(s.heldBy[op.holder], o)
 	case 1:
 		o := s.heldBy[op.holder][op.idx]
-		s.heldBy[op.holder] = append(append([]interface{}{}, s.heldBy[op.holder][:op.idx]...), s.heldBy[op.holder][op.idx+1:]...)
+		if op.idx == len(s.heldBy[op.holder])-1 {
+			s.heldBy[op.holder] = s.heldBy[op.holder][:op.idx]
+		} else {
+			s.heldBy[op.holder] = append(append([]interface{}{}, s.heldBy[op.holder][:op.idx]...), s.heldBy[op.holder][op.idx+1:]...)
+		}
 		s.w.giveBack(o)
+		// the returned encoder is attached to a destination that records every call made on it: Return has to
+		// complete whatever the state of the returned object, so it may not call into the object's writer
+		spy := &writerSpy{}
+		if e, ok := o.(*hessian.Encoder); ok {
+			e.Reset(spy)
+		}
 		if p := core.Catch(func() { s.pool.Return(o) }); p != "" {
 			return "Return panicked: " + p
+		}
+		if spy.calls > 0 {
+			return "Return called " + spy.first + " on the writer the returned encoder is attached to (a stalled destination would block Return)"
 		}
 	case 2:
 		var o interface{} = &poolObj{-1}
@@ -428,6 +463,49 @@ func init() {
 					}})
 				}
 			}
+			// size sweep: Get size+8 objects, return them all, drain - for sizes far beyond the history search
+			for ki := range poolKinds {
+				k := poolKinds[ki]
+				us = append(us, core.Unit{Name: "size-sweep:" + k.name, Cost: 20, Run: func(c *core.Ctx) {
+					var sizes []int
+					if tier == "thorough" {
+						for s := 0; s <= 1100; s++ {
+							sizes = append(sizes, s)
+						}
+						sizes = append(sizes, 4095, 4096, 4097, 65535, 65536, 65537)
+					} else {
+						for s := 0; s <= 40; s++ {
+							sizes = append(sizes, s)
+						}
+						sizes = append(sizes, 63, 64, 65, 127, 128, 129, 255, 256, 257, 300, 511, 512, 513, 1000, 1023, 1024, 1025)
+					}
+					for _, size := range sizes {
+						if !c.Begin() {
+							continue
+						}
+						c.NontrivialN(1)
+						c.Res.States++
+						s := newPoolState(k, size)
+						bad := ""
+						for i := 0; i < size+8 && bad == ""; i++ {
+							bad = s.apply(poolOp{0, 0, 0})
+							c.Res.Transitions++
+						}
+						for len(s.heldBy[0]) > 0 && bad == "" {
+							bad = s.apply(poolOp{1, 0, len(s.heldBy[0]) - 1})
+							c.Res.Transitions++
+						}
+						if bad == "" {
+							bad = s.drain()
+						}
+						if bad != "" {
+							c.Report(&core.Violation{Stage: "size-sweep", Kind: "ownership", Shape: k.name, Message: msgStrict(bad), Case: fmt.Sprintf("%s size %d: Get x %d, Return x %d, drain", k.name, size, size+8, size+8)})
+						}
+					}
+					c.Outcome("size-sweep-ok")
+					c.Cover("size-sweep")
+				}})
+			}
 			// layer 2
 			for size := 0; size <= 2; size++ {
 				for fill := 0; fill <= size; fill++ {
@@ -534,7 +612,7 @@ func init() {
 			return us
 		},
 		RequireCover: func(string) []string {
-			return []string{"histories:newPool(counting factory)", "histories:NewEncoderPool", "histories:NewSerializerPool", "sched:2threads", "sched:3threads", "sched:quantum", "race:pool", "instrumented"}
+			return []string{"size-sweep", "histories:newPool(counting factory)", "histories:NewEncoderPool", "histories:NewSerializerPool", "sched:2threads", "sched:3threads", "sched:quantum", "race:pool", "instrumented"}
 		},
 	})
 }
